@@ -124,7 +124,7 @@ def gen_case(rng, tmpl, all_paths, valid_base=None):
                 muts.append([list(p), "junk:" + _kind_of(v)])
             elif kind == "unknown":
                 par_ = p[:-1]
-                set_at(cfg, par_ + (rng.choice(["zzz_unknown", "Enabled", "max_entires", "x" * 40]),), rng.choice([1, {}, "a"]))
+                set_at(cfg, par_ + (rng.choice(["zzz_unknown", "Enabled", "max_entires", "x" * 40, "bad\rkey", "ff\x0ckey", "nel\x85key", "ls\u2028key", "nl\nkey", " lead", "tab\tkey", "ünï"]),), rng.choice([1, {}, "a"]))
                 muts.append([list(par_), "unknown-key"])
             elif kind == "nearmiss":
                 par_ = p[:-1]
@@ -315,8 +315,8 @@ def api_round(cfg, sess, case):
                 errs, warns = V.validate_config(c, strict=False)
                 outs[name] = ("ok" if not errs else "rej", None, list(errs))
         except ConfigError as e:
-            msg = str(e).strip()
-            outs[name] = ("rej", None, msg.split("\n") if msg else ["invalid configuration"])
+            msg = str(e)  # verbatim: the raising form, the tuple forms and the CLI must agree to the character
+            outs[name] = ("rej", None, msg.split("\n") if msg.strip() else ["invalid configuration"])
         except Exception as ex:
             import traceback
             tb = traceback.extract_tb(ex.__traceback__)
@@ -385,15 +385,19 @@ def script_round(cfg, ok, msgs, sess, case):
     finally:
         sys.stdin, sys.stdout, sys.stderr = old_in, old_out, old_err
     sess.count("script_main_runs")
-    first = out.splitlines()[0] if out.splitlines() else ""
+    # the script prints one message per LF-terminated line; only LF separates lines (a key name may carry U+2028, FF, ...)
+    lines_ = out.split("\n")
+    if lines_ and lines_[-1] == "":
+        lines_.pop()
+    first = lines_[0] if lines_ else ""
     if ok:
         if rc != 0 or first != "OK":
             sess.violation("script-disagrees(accepted config)", case, {"rc": rc, "first": first[:80]})
     else:
         if rc != 1 or first != "CONFIG INVALID":
             sess.violation("script-disagrees(rejected config)", case, {"rc": rc, "first": first[:80]})
-        elif out.splitlines()[1:] != msgs:
-            sess.violation("script-disagrees-on-messages", case, {"script": out.splitlines()[1:4], "api": msgs[:3]})
+        elif lines_[1:] != msgs:
+            sess.violation("script-disagrees-on-messages", case, {"script": lines_[1:4], "api": msgs[:3]})
 
 
 WORLDS = None
@@ -495,7 +499,7 @@ def cli_case(cfg):
     text = yaml.safe_dump(cfg, allow_unicode=True)
     p = subprocess.run([bootstrap.PY, "-m", "clematis", "validate", "-"], input=text.encode(), capture_output=True,
                        env=bootstrap.child_env(), cwd=bootstrap.VERIF, timeout=120)
-    out = p.stdout.decode("utf-8", "replace").splitlines()
+    out = p.stdout.decode("utf-8", "replace").split("\n")
     return p.returncode, (out[0] if out else ""), p.stderr.decode("utf-8", "replace")[-300:]
 
 
@@ -522,6 +526,8 @@ def _chunk(args):
         sweep = [(p_, v_) for p_ in allp for v_ in HOSTILE]
         interior = sorted({p_[:j] for p_ in allp for j in range(1, len(p_))})
         sweep += [(p_, v_) for p_ in interior for v_ in (None, 1, "x", [], True, {})]
+        # unknown keys whose names carry line-boundary characters (they are echoed in the messages), under every section
+        sweep += [(p_ + (k_,), 1) for p_ in [()] + interior for k_ in ("bad\rkey", "ff\x0ckey", "nel\x85key", "ls\u2028key", "nl\nkey")]
         nchunks = par.NWORK
         seen_norm = set()
         for j, (p_, v_) in enumerate(sweep):
